@@ -1,3 +1,435 @@
-import LimnoriaModel.C08.Model
+/-
+C08 — lemmas about the abstract move system (`Abs.lean`) and their transfer to the model through the
+refinement lemmas (`Refine.lean`).
+-/
+import LimnoriaModel.C08.Refine
 namespace C08
+open Py
+open Gen.Conn (Fsm)
+
+/-! ### what a sequence of moves does to the queue kinds, the epoch and the CAP END counter -/
+
+/-- the shape of the queue kinds / END counter after some moves: either the same epoch and the old
+queue extended, or a later epoch (real driver only) and the connect messages extended -/
+def Grown (cfg : Cfg) (K : Kind → Bool) (a b : Abs) : Prop :=
+  ∃ extra : List Kind, (∀ k ∈ extra, k = .capEnd ∨ K k = true) ∧
+    ((b.epoch = a.epoch ∧ b.kinds = a.kinds ++ extra ∧ b.endCount = a.endCount + extra.count .capEnd) ∨
+     (a.epoch < b.epoch ∧ cfg.realDriver = true ∧ b.kinds = connectKinds cfg ++ extra ∧ b.endCount = extra.count .capEnd))
+
+theorem Grown.refl (cfg : Cfg) (K : Kind → Bool) (a : Abs) : Grown cfg K a a :=
+  ⟨[], by simp, .inl ⟨rfl, by simp, by simp⟩⟩
+
+theorem grown_move {cfg : Cfg} {K : Kind → Bool} {a b c : Abs} (h : Grown cfg K a b) (m : Move cfg K b c) :
+    Grown cfg K a c := by
+  obtain ⟨extra, hk, hcase⟩ := h
+  cases m
+  case emit k hK hE hS =>
+    refine ⟨extra ++ [k], ?_, ?_⟩
+    · intro x hx; simp only [List.mem_append, List.mem_singleton] at hx
+      rcases hx with hx | rfl
+      · exact hk x hx
+      · exact .inr hK
+    · have hc : List.count Kind.capEnd [k] = 0 := by simp [List.count_cons, hE]
+      rcases hcase with ⟨h1, h2, h3⟩ | ⟨h1, h2, h3, h4⟩
+      · exact .inl ⟨h1, by simp [h2], by simp [h3, List.count_append, hc]⟩
+      · exact .inr ⟨h1, h2, by simp [h3], by simp [h4, List.count_append, hc]⟩
+  case capEnd hf hm =>
+    refine ⟨extra ++ [.capEnd], ?_, ?_⟩
+    · intro x hx; simp only [List.mem_append, List.mem_singleton] at hx
+      rcases hx with hx | rfl
+      · exact hk x hx
+      · exact .inl rfl
+    · rcases hcase with ⟨h1, h2, h3⟩ | ⟨h1, h2, h3, h4⟩
+      · exact .inl ⟨h1, by simp [h2], by simp [h3, List.count_append]; omega⟩
+      · exact .inr ⟨h1, h2, by simp [h3], by simp [h4, List.count_append]⟩
+  case reset hr =>
+    refine ⟨[], by simp, .inr ⟨?_, hr, by simp, by simp⟩⟩
+    rcases hcase with ⟨h1, _, _⟩ | ⟨h1, _, _, _⟩ <;> simp only <;> omega
+  all_goals exact ⟨extra, hk, hcase⟩
+
+theorem grown_of_moves {cfg : Cfg} {K : Kind → Bool} {a b : Abs} (h : Moves cfg K a b) : Grown cfg K a b := by
+  induction h with
+  | refl => exact Grown.refl cfg K _
+  | step _ m ih => exact grown_move ih m
+
+/-! ### CAP END at most once per epoch -/
+
+def lateState (f : Fsm) : Bool :=
+  f = .INIT_WAITING_MOTD || f = .INIT_MOTD || f = .CONNECTED || f = .CONNECTED_SASL || f = .SHUTTING_DOWN
+
+/-- the END counter is 0, or it is 1 and the FSM has left the negotiation phase for good -/
+def EndInv (a : Abs) : Prop := a.endCount = 0 ∨ (a.endCount = 1 ∧ lateState a.fsm = true)
+
+theorem endInv_move {cfg : Cfg} {K : Kind → Bool} {a b : Abs} (h : EndInv a) (m : Move cfg K a b) : EndInv b := by
+  cases m
+  case capEnd hf hm =>
+    rcases h with h | ⟨_, h2⟩
+    · exact .inr ⟨by simp [h], rfl⟩
+    · rw [hf] at h2; simp [lateState] at h2
+  case saslStart to hto _ _ _ =>
+    rcases h with h | ⟨h1, h2⟩
+    · exact .inl h
+    · rcases hto with ⟨hf, rfl⟩ | ⟨_, rfl⟩
+      · rw [hf] at h2; simp [lateState] at h2
+      · exact .inr ⟨h1, rfl⟩
+  case saslFinish to hto =>
+    rcases h with h | ⟨h1, h2⟩
+    · exact .inl h
+    · rcases hto with ⟨hf, rfl⟩ | ⟨_, rfl⟩
+      · rw [hf] at h2; simp [lateState] at h2
+      · exact .inr ⟨h1, rfl⟩
+  case startMotd _ _ => rcases h with h | ⟨h1, _⟩; exact .inl h; exact .inr ⟨h1, rfl⟩
+  case endMotd _ _ => rcases h with h | ⟨h1, _⟩; exact .inl h; exact .inr ⟨h1, rfl⟩
+  case shutdown => rcases h with h | ⟨h1, _⟩; exact .inl h; exact .inr ⟨h1, rfl⟩
+  case reset _ => exact .inl rfl
+  all_goals exact h
+
+theorem endInv_moves {cfg : Cfg} {K : Kind → Bool} {a b : Abs} (h : EndInv a) (m : Moves cfg K a b) : EndInv b := by
+  induction m with
+  | refl => exact h
+  | step _ m ih => exact endInv_move ih m
+
+/-! ### required SASL: no CAP END / MOTD / afterConnect without authentication -/
+
+def pastNegotiation (f : Fsm) : Bool :=
+  f = .INIT_WAITING_MOTD || f = .INIT_MOTD || f = .CONNECTED || f = .CONNECTED_SASL
+
+def ReqInv (cfg : Cfg) (a : Abs) : Prop :=
+  cfg.required = true → (pastNegotiation a.fsm = true ∨ a.afterConnect = true ∨ 0 < a.endCount) → a.saslAuth = true
+
+theorem missing_false {cfg : Cfg} {a : Abs} (h : missing cfg a = false) (hr : cfg.required = true) : a.saslAuth = true := by
+  simpa [missing, hr] using h
+
+theorem reqInv_move {cfg : Cfg} {K : Kind → Bool} {a b : Abs} (h : ReqInv cfg a) (m : Move cfg K a b) : ReqInv cfg b := by
+  cases m
+  case capEnd hf hm => intro hr _; exact missing_false hm hr
+  case saslStart to hto _ hauth _ =>
+    intro hr hc
+    rcases hto with ⟨_, rfl⟩ | ⟨hf, rfl⟩
+    · rcases hc with hc | hc | hc
+      · simp [pastNegotiation] at hc
+      · exact h hr (.inr (.inl hc))
+      · exact h hr (.inr (.inr hc))
+    · exact h hr (.inl (by simp [pastNegotiation, hf]))
+  case saslFinish to hto =>
+    intro hr hc
+    rcases hto with ⟨_, rfl⟩ | ⟨hf, rfl⟩
+    · rcases hc with hc | hc | hc
+      · simp [pastNegotiation] at hc
+      · exact h hr (.inr (.inl hc))
+      · exact h hr (.inr (.inr hc))
+    · exact h hr (.inl (by simp [pastNegotiation, hf]))
+  case startMotd _ hm => intro hr _; exact missing_false hm hr
+  case endMotd _ hm => intro hr _; exact missing_false hm hr
+  case setAfterConnect _ hm => intro hr _; exact missing_false hm hr
+  case shutdown =>
+    intro hr hc
+    rcases hc with hc | hc | hc
+    · simp [pastNegotiation] at hc
+    · exact h hr (.inr (.inl hc))
+    · exact h hr (.inr (.inr hc))
+  case authOk => intro _ _; rfl
+  case reset _ =>
+    intro _ hc
+    rcases hc with hc | hc | hc
+    · simp [pastNegotiation] at hc
+    · simp [pastNegotiation] at hc
+    · simp [pastNegotiation] at hc
+  all_goals exact h
+
+theorem reqInv_moves {cfg : Cfg} {K : Kind → Bool} {a b : Abs} (h : ReqInv cfg a) (m : Moves cfg K a b) : ReqInv cfg b := by
+  induction m with
+  | refl => exact h
+  | step _ m ih => exact reqInv_move ih m
+
+/-! ### SASL traffic only after `sasl` was acknowledged -/
+
+/-- `sasl` currently acknowledged, or a SASL state, or SASL traffic waiting on the queue: each implies
+that a CAP ACK left `sasl` acknowledged earlier in this epoch -/
+def SaslQ (a : Abs) : Prop :=
+  (a.ackSasl = true → a.acked = true) ∧ (isSaslState a.fsm = true → a.acked = true) ∧
+  (∀ k ∈ a.kinds, k.sasl = true → a.acked = true)
+
+theorem saslQ_move {cfg : Cfg} {K : Kind → Bool} {a b : Abs} (h : SaslQ a) (m : Move cfg K a b) : SaslQ b := by
+  obtain ⟨h1, h2, h3⟩ := h
+  cases m
+  case emit k hK hE hS =>
+    refine ⟨h1, h2, ?_⟩
+    intro x hx hs
+    simp only [List.mem_append, List.mem_singleton] at hx
+    rcases hx with hx | rfl
+    · exact h3 x hx hs
+    · exact h2 (hS hs)
+  case capEnd hf hm =>
+    refine ⟨h1, fun hc => by simp [isSaslState] at hc, ?_⟩
+    intro x hx hs
+    simp only [List.mem_append, List.mem_singleton] at hx
+    rcases hx with hx | rfl
+    · exact h3 x hx hs
+    · simp [Kind.sasl] at hs
+  case saslStart to hto hack _ _ => exact ⟨h1, fun _ => h1 hack, h3⟩
+  case saslFinish to hto =>
+    refine ⟨h1, ?_, h3⟩
+    rcases hto with ⟨hf, rfl⟩ | ⟨hf, rfl⟩ <;> intro hc <;> simp [isSaslState] at hc
+  case startMotd _ _ => exact ⟨h1, fun hc => by simp [isSaslState] at hc, h3⟩
+  case endMotd _ _ => exact ⟨h1, fun hc => by simp [isSaslState] at hc, h3⟩
+  case shutdown => exact ⟨h1, fun hc => by simp [isSaslState] at hc, h3⟩
+  case ackGain _ => exact ⟨fun _ => rfl, fun _ => rfl, fun _ _ _ => rfl⟩
+  case ackLose => exact ⟨fun hc => by simp at hc, h2, h3⟩
+  case reset _ =>
+    refine ⟨fun hc => by simp at hc, fun hc => by simp [isSaslState] at hc, ?_⟩
+    intro x hx hs
+    unfold connectKinds at hx
+    simp only [List.mem_append, List.mem_cons, List.mem_singleton, List.not_mem_nil, or_false] at hx
+    rcases hx with (rfl | hx) | rfl | rfl
+    · simp [Kind.sasl] at hs
+    · split at hx
+      · simp at hx
+      · simp only [List.mem_singleton] at hx; subst hx; simp [Kind.sasl] at hs
+    · simp [Kind.sasl] at hs
+    · simp [Kind.sasl] at hs
+  all_goals exact ⟨h1, h2, h3⟩
+
+theorem saslQ_moves {cfg : Cfg} {K : Kind → Bool} {a b : Abs} (h : SaslQ a) (m : Moves cfg K a b) : SaslQ b := by
+  induction m with
+  | refl => exact h
+  | step _ m ih => exact saslQ_move ih m
+
+/-! ### only a handler with the `startSasl` permission enters a SASL state -/
+
+theorem noSaslEntry_move {cfg : Cfg} {K : Kind → Bool} (hK : K .startSasl = false) {a b : Abs}
+    (m : Move cfg K a b) (hb : isSaslState b.fsm = true) : isSaslState a.fsm = true ∧ b.epoch = a.epoch := by
+  cases m
+  case saslStart to hto _ _ hp => rw [hK] at hp; cases hp
+  case saslFinish to hto => rcases hto with ⟨_, rfl⟩ | ⟨_, rfl⟩ <;> simp [isSaslState] at hb
+  case capEnd _ _ => simp [isSaslState] at hb
+  case startMotd _ _ => simp [isSaslState] at hb
+  case endMotd _ _ => simp [isSaslState] at hb
+  case shutdown => simp [isSaslState] at hb
+  case reset _ => simp [isSaslState] at hb
+  all_goals exact ⟨hb, rfl⟩
+
+theorem noSaslEntry_moves {cfg : Cfg} {K : Kind → Bool} (hK : K .startSasl = false) {a b : Abs}
+    (m : Moves cfg K a b) (hb : isSaslState b.fsm = true) : isSaslState a.fsm = true ∧ b.epoch = a.epoch := by
+  induction m with
+  | refl => exact ⟨hb, rfl⟩
+  | step _ m ih =>
+    obtain ⟨h1, h2⟩ := noSaslEntry_move hK m hb
+    obtain ⟨h3, h4⟩ := ih h1
+    exact ⟨h3, h2.trans h4⟩
+
+/-! ### the FSM never goes back: rank is monotone inside an epoch -/
+
+def rank : Fsm → Nat
+  | .UNINITIALIZED => 0
+  | .INIT_CAP_NEGOTIATION => 1
+  | .INIT_SASL => 1
+  | .INIT_WAITING_MOTD => 2
+  | .INIT_MOTD => 2
+  | .CONNECTED => 2
+  | .CONNECTED_SASL => 2
+  | .SHUTTING_DOWN => 3
+
+/-- within an epoch: the rank does not decrease; UNINITIALIZED is only left for SHUTTING_DOWN -/
+def Later (a b : Abs) : Prop :=
+  b.epoch = a.epoch → rank a.fsm ≤ rank b.fsm ∧ (a.fsm = .UNINITIALIZED → b.fsm = .UNINITIALIZED ∨ b.fsm = .SHUTTING_DOWN)
+
+theorem later_move {cfg : Cfg} {K : Kind → Bool} {a b : Abs} (m : Move cfg K a b) :
+    a.epoch ≤ b.epoch ∧ Later a b := by
+  cases m
+  case capEnd hf _ => exact ⟨Nat.le_refl _, fun _ => ⟨by simp [hf, rank], fun h => by simp [hf] at h⟩⟩
+  case saslStart to hto _ _ _ =>
+    refine ⟨Nat.le_refl _, fun _ => ?_⟩
+    rcases hto with ⟨hf, rfl⟩ | ⟨hf, rfl⟩ <;> exact ⟨by simp [hf, rank], fun h => by simp [hf] at h⟩
+  case saslFinish to hto =>
+    refine ⟨Nat.le_refl _, fun _ => ?_⟩
+    rcases hto with ⟨hf, rfl⟩ | ⟨hf, rfl⟩ <;> exact ⟨by simp [hf, rank], fun h => by simp [hf] at h⟩
+  case startMotd hf _ =>
+    refine ⟨Nat.le_refl _, fun _ => ?_⟩
+    rcases hf with hf | hf | hf | hf <;> exact ⟨by simp [hf, rank], fun h => by simp [hf] at h⟩
+  case endMotd hf _ =>
+    refine ⟨Nat.le_refl _, fun _ => ?_⟩
+    rcases hf with hf | hf | hf | hf | hf <;> exact ⟨by simp [hf, rank], fun h => by simp [hf] at h⟩
+  case shutdown =>
+    refine ⟨Nat.le_refl _, fun _ => ⟨?_, fun _ => .inr rfl⟩⟩
+    cases a.fsm <;> simp [rank]
+  case reset _ => exact ⟨Nat.le_succ _, fun h => by simp at h⟩
+  all_goals exact ⟨Nat.le_refl _, fun _ => ⟨Nat.le_refl _, fun h => .inl h⟩⟩
+
+theorem later_moves {cfg : Cfg} {K : Kind → Bool} {a b : Abs} (m : Moves cfg K a b) :
+    a.epoch ≤ b.epoch ∧ Later a b := by
+  induction m with
+  | refl => exact ⟨Nat.le_refl _, fun _ => ⟨Nat.le_refl _, fun h => .inl h⟩⟩
+  | step m0 m ih =>
+    rename_i b c
+    obtain ⟨e1, l1⟩ := ih
+    obtain ⟨e2, l2⟩ := later_move m
+    refine ⟨Nat.le_trans e1 e2, fun he => ?_⟩
+    have hb : b.epoch = a.epoch := by omega
+    have hc : c.epoch = b.epoch := by omega
+    obtain ⟨r1, u1⟩ := l1 hb
+    obtain ⟨r2, u2⟩ := l2 hc
+    refine ⟨Nat.le_trans r1 r2, fun hu => ?_⟩
+    rcases u1 hu with hbu | hbs
+    · exact u2 hbu
+    · -- b is SHUTTING_DOWN: rank 3 is maximal, and only `shutdown`/`reset` leave it
+      have r2' : 3 ≤ rank c.fsm := by have := r2; rw [hbs] at this; exact this
+      right; revert r2'; cases c.fsm <;> simp [rank]
+
+/-! ### the normal queue only holds JOINs, the event list only driver events -/
+
+theorem side_move {cfg : Cfg} {K : Kind → Bool} {a b : Abs} (m : Move cfg K a b)
+    (h : a.slowOk = true ∧ a.evOk = true) : b.slowOk = true ∧ b.evOk = true := by
+  cases m <;> first | exact h | exact ⟨rfl, h.2⟩
+
+theorem side_moves {cfg : Cfg} {K : Kind → Bool} {a b : Abs} (m : Moves cfg K a b)
+    (h : a.slowOk = true ∧ a.evOk = true) : b.slowOk = true ∧ b.evOk = true := by
+  induction m with
+  | refl => exact h
+  | step _ m ih => exact side_move m ih
+
+/-! ### data lemmas: sorting, arranging and line filling keep the words -/
+
+theorem mem_insertSorted {x y : Str} {l : List Str} : y ∈ insertSorted x l ↔ y = x ∨ y ∈ l := by
+  induction l with
+  | nil => simp [insertSorted]
+  | cons z zs ih =>
+    unfold insertSorted
+    split
+    · simp only [List.mem_cons, ih]; constructor
+      · rintro (h | h | h)
+        · exact .inr (.inl h)
+        · exact .inl h
+        · exact .inr (.inr h)
+      · rintro (h | h | h)
+        · exact .inr (.inl h)
+        · exact .inl h
+        · exact .inr (.inr h)
+    · simp
+
+theorem mem_isort {y : Str} {l : List Str} : y ∈ isort l ↔ y ∈ l := by
+  induction l with
+  | nil => simp [isort]
+  | cons z zs ih => simp [isort, mem_insertSorted, ih]
+
+theorem mem_arrangeCaps {ack caps : List Str} {w : Str} (h : w ∈ arrangeCaps ack caps) : w ∈ caps := by
+  unfold arrangeCaps at h
+  simp only at h
+  split at h
+  · split at h
+    · simp only [List.mem_cons, List.mem_filter] at h
+      rename_i h1 h2
+      rcases h with rfl | rfl | h
+      · simp only [Bool.and_eq_true, List.contains_iff_mem, mem_isort] at h1; exact h1.1
+      · simp only [List.contains_iff_mem, List.mem_filter, mem_isort] at h2; exact h2.1
+      · exact mem_isort.mp h.1.1
+    · exact mem_isort.mp (List.mem_filter.mp h).1
+  · exact mem_isort.mp h
+
+theorem mem_fillGo {width : Nat} {l : List Str} : ∀ {cur : List Str} {n : Nat} {line : List Str},
+    line ∈ fillGo width l cur n → (∃ pre, line = cur ++ pre ∧ ∀ x ∈ pre, x ∈ l) ∨ (∀ x ∈ line, x ∈ l) := by
+  induction l with
+  | nil =>
+    intro cur n line h
+    simp only [fillGo, List.mem_singleton] at h
+    exact .inl ⟨[], by simp [h], by simp⟩
+  | cons w ws ih =>
+    intro cur n line h
+    unfold fillGo at h
+    split at h
+    · rcases ih h with ⟨pre, rfl, hp⟩ | hp
+      · exact .inl ⟨w :: pre, by simp, by
+          intro x hx; simp only [List.mem_cons] at hx ⊢
+          rcases hx with rfl | hx
+          · exact .inl rfl
+          · exact .inr (hp x hx)⟩
+      · exact .inr fun x hx => List.mem_cons_of_mem _ (hp x hx)
+    · simp only [List.mem_cons] at h
+      rcases h with rfl | h
+      · exact .inl ⟨[], by simp, by simp⟩
+      · rcases ih h with ⟨pre, rfl, hp⟩ | hp
+        · refine .inr fun x hx => ?_
+          simp only [List.mem_append, List.mem_singleton] at hx
+          rcases hx with rfl | hx
+          · exact List.mem_cons_self
+          · exact List.mem_cons_of_mem _ (hp x hx)
+        · exact .inr fun x hx => List.mem_cons_of_mem _ (hp x hx)
+
+theorem mem_fill {width : Nat} {l line : List Str} (h : line ∈ fill width l) : ∀ x ∈ line, x ∈ l := by
+  cases l with
+  | nil => simp [fill] at h
+  | cons w ws =>
+    simp only [fill] at h
+    rcases mem_fillGo h with ⟨pre, rfl, hp⟩ | hp
+    · intro x hx
+      simp only [List.singleton_append, List.mem_cons] at hx ⊢
+      rcases hx with rfl | hx
+      · exact .inl rfl
+      · exact .inr (hp x hx)
+    · exact fun x hx => List.mem_cons_of_mem _ (hp x hx)
+
+theorem mem_newCaps {s : St} {w : Str} (h : w ∈ newCaps s) : w ∈ keys s.ls ∧ w ∈ s.wanted ∧ w ∉ s.ack := by
+  unfold newCaps at h
+  simp only [List.mem_filter, Bool.and_eq_true, List.contains_iff_mem, Bool.not_eq_true', ] at h
+  refine ⟨h.1, h.2.1, ?_⟩
+  have := h.2.2
+  simpa using this
+
+/-- table lemma: `echo-message labeled-response` fits on one CAP REQ line -/
+theorem tab_echoFits : sEcho.length + 1 + sLabeled.length ≤ capReqWidth := by decide
+
+/-- a CAP REQ line holding `echo-message` also holds `labeled-response`, unless that is acknowledged already -/
+theorem echo_line {ack caps line : List Str} (h : line ∈ fill capReqWidth (arrangeCaps ack caps))
+    (he : sEcho ∈ line) : sLabeled ∈ line ∨ sLabeled ∈ ack := by
+  by_cases hl : sLabeled ∈ ack
+  · exact .inr hl
+  · left
+    unfold arrangeCaps at h
+    simp only at h
+    have hl' : ack.contains sLabeled = false := by simpa using hl
+    by_cases hc : (isort caps).contains sEcho = true
+    · simp only [hc, hl', Bool.not_false, Bool.and_self, if_true] at h
+      split at h
+      · -- echo and labeled lead the list
+        simp only [fill] at h
+        unfold fillGo at h
+        rw [if_pos tab_echoFits] at h
+        rcases mem_fillGo h with ⟨pre, rfl, _⟩ | hp
+        · simp
+        · have := hp _ he
+          simp only [List.mem_filter, bne_self_eq_false, Bool.false_eq_true, and_false] at this
+          exact this.1.elim
+      · have := mem_fill h _ he
+        simp at this
+    · have hc' : (isort caps).contains sEcho = false := by simpa using hc
+      simp only [hc', Bool.false_and, Bool.false_eq_true, if_false] at h
+      have := mem_fill h _ he
+      simp only [List.contains_iff_mem, Bool.not_eq_true, decide_eq_false_iff_not] at hc
+      exact absurd this (by simpa using hc)
+
+/-! ### the ghost `saslAcked` is only raised by a handler with the `ackPerm` permission (CAP ACK) -/
+
+theorem acked_move {cfg : Cfg} {K : Kind → Bool} (hK : K .ackPerm = false) {a b : Abs} (m : Move cfg K a b)
+    (hb : b.acked = true) : a.acked = true := by
+  cases m
+  case ackGain hp => rw [hK] at hp; cases hp
+  case reset _ => simp at hb
+  all_goals exact hb
+
+theorem acked_moves {cfg : Cfg} {K : Kind → Bool} (hK : K .ackPerm = false) {a b : Abs} (m : Moves cfg K a b)
+    (hb : b.acked = true) : a.acked = true := by
+  induction m with
+  | refl => exact hb
+  | step _ m ih => exact ih (acked_move hK m hb)
+
+/-! ### REQUEST_CAPABILITIES only ever gains `sasl` -/
+
+theorem wantedOk_move {cfg : Cfg} {K : Kind → Bool} {a b : Abs} (m : Move cfg K a b) : b.wantedOk = a.wantedOk := by
+  cases m <;> rfl
+
+theorem wantedOk_moves {cfg : Cfg} {K : Kind → Bool} {a b : Abs} (m : Moves cfg K a b) : b.wantedOk = a.wantedOk := by
+  induction m with
+  | refl => rfl
+  | step _ m ih => exact (wantedOk_move m).trans ih
+
 end C08
